@@ -227,7 +227,9 @@ class Flow:
     statement, break/continue (both spellings) at every depth, conditions of every value kind.
     `reference(prog)` is an independent signal-passing interpreter for exactly this fragment."""
 
-    CONDS = [MYST, NULL, TRUE, FALSE, num(0), num(1), num(-1) if False else num(2), st(''), st('x'), st('0')]
+    # (tiny non-zero numbers are true: truthiness is `!= 0`, not a tolerance)
+    CONDS = [MYST, NULL, TRUE, FALSE, num(0), num(1), num(-1) if False else num(2), st(''), st('x'), st('0'),
+             num(1e-17), num(5e-324), num(2.0 ** -52), num(1e-300)]
 
     def __init__(self, rng):
         self.rng = rng
